@@ -157,8 +157,20 @@ class Frame(object):
         self.server.bind()
         w.cur = 0
         self.connected = []
+        def on_connected():
+            self.connected.append(1)
+            # what TCPTransport does at this moment - send the first message(s) from inside the connected callback, while
+            # the connection object is still in its CONNECTING state; here also messages bigger than the socket buffer
+            for j in range(cfg.get('send_on_connect', 0)):
+                r = random.Random(seed * 131 + len(self.connected) * 17 + j)
+                msg = make_msg(r, r.choice([3, cfg['cap'] + 10, 3 * cfg['cap'] + 1]), 'bytes')
+                self.A.sent.append(msg)
+                self.A.sent_bytes += encode(msg)
+                self.bounds[0].add(len(self.A.sent_bytes))
+                self.w.cur = 0
+                self.A.conn.send(msg)
         self.A.conn = TcpConnection(self.A.poller, onMessageReceived=lambda m: self.A.got.append(m),
-                                    onConnected=lambda: self.connected.append(1),
+                                    onConnected=on_connected,
                                     onDisconnected=lambda: self._disc(self.A), timeout=cfg.get('timeout', 1e9),
                                     sendBufferSize=cfg['cap'], recvBufferSize=cfg.get('recvbuf', 1 << 13))
         self.A.conn.connect('10.0.0.2', 4002)
@@ -430,6 +442,8 @@ def draw(rng, tier):
                bidir=rng.random() < 0.5)
     # the dialler's TcpConnection object is disconnected in the middle of the traffic and dials again (0-2 times)
     cfg['reconnects'] = rng.choice([0, 0, 1, 2])
+    # messages sent from inside the connected callback (0-2, some bigger than the socket buffer)
+    cfg['send_on_connect'] = rng.choice([0, 0, 1, 2])
     return cfg
 
 
